@@ -55,7 +55,7 @@ E0 == [act |-> "none", b |-> NONE, pid |-> NONE, pw |-> 0, tok |-> 0, rm |-> FAL
        prov |-> NONE, outcome |-> NONE, phone |-> 0, redir |-> NONE, k |-> NONE]
 
 R0 == [class |-> "none", loc |-> NONE, ran |-> FALSE, seenUser |-> NONE, seenKeys |-> {},
-       mails |-> {}, sms |-> {}, shown |-> {}, leaks |-> {}]
+       mails |-> {}, sms |-> {}, shown |-> {}, leaks |-> {}, calls |-> <<>>]
 
 \* declared secondary e-mail addresses (recovery mail also goes there); the
 \* harness seeds u2 with one
@@ -298,6 +298,9 @@ AuthMW(h, needFull, need2fa) ==
   ELSE IF uid = NONE \/ uid \notin Pids \/ ~h.db[uid].ex THEN [ok |-> FALSE, uid |-> NONE]
   ELSE [ok |-> TRUE, uid |-> uid]
 
+\* After(EventTwoFactorAdded / Removed): an application handler may answer the request itself
+TfaChanged(h, c, page) == IF c.appHandles2FA THEN Redirect(h, "appTfaChanged") ELSE Page(h, page)
+
 \* twofactor.EmailVerify.Wrap
 EmailWrapBlocks(h, c) == c.emailAuth /\ ~h.rs.tfaAuthed
 
@@ -363,6 +366,11 @@ NewRecoveryCodes(h, u) ==
   LET g == Fresh(h, "rc") IN
   [Bump(h, "rc") EXCEPT !.db[u].rcg = g, !.db[u].rcLeft = 1..10, !.shown = @ \cup {<<"rc", g>>}]
 
+\* when the application answers After(EventTwoFactorAdded) itself, the page that
+\* would show the fresh codes is never rendered: they are stored but nobody has them
+EnrolRecoveryCodes(h, c, u) ==
+  IF c.appHandles2FA THEN [h EXCEPT !.db[u].rcg = -1, !.db[u].rcLeft = {-1}] ELSE NewRecoveryCodes(h, u)
+
 RcMatches(h, u, e) == e.rc >= 1 /\ e.g = h.db[u].rcg /\ e.rc \in h.db[u].rcLeft
 
 \* the user a validate-style handler acts for: the logged-in one, else the pending one
@@ -421,10 +429,10 @@ TotpConfirm(h, c, e) ==
        ELSE IF h.rs.totpSetup = 0 THEN Fail(h)
        ELSE IF ~(e.code >= 1 /\ e.tok = h.rs.totpSetup) THEN Page(h, "totpConfirm")
        ELSE LET u  == m.uid
-                h1 == NewRecoveryCodes(h, u)
+                h1 == EnrolRecoveryCodes(h, c, u)
                 h2 == [h1 EXCEPT !.db[u].totp = h.rs.totpSetup,
                                  !.db[u].totpLast = IF c.totpOneTime THEN TotpEnc(e) ELSE @]
-            IN  Page(DelS(DelS(h2, "totpSetup"), "tfaAuthed"), "totpConfirmOK")
+            IN  TfaChanged(DelS(DelS(h2, "totpSetup"), "tfaAuthed"), c, "totpConfirmOK")
 
 TotpRemove(h, c, e) ==
   IF ~Has(c, "totp") THEN RouteMissing(h)
@@ -433,7 +441,7 @@ TotpRemove(h, c, e) ==
        ELSE LET u == m.uid
                 v == TotpCheck(h, c, u, e)
             IN  IF v.status # "ok" THEN Page(v.h, "totpRemove")
-                ELSE Page([SaveLast(DelS(v.h, "twofa"), u) EXCEPT !.db[u].totp = 0], "totpRemoveOK")
+                ELSE TfaChanged([SaveLast(DelS(v.h, "twofa"), u) EXCEPT !.db[u].totp = 0], c, "totpRemoveOK")
 
 TotpValidate(h, c, e) ==
   IF ~Has(c, "totp") THEN RouteMissing(h)
@@ -487,10 +495,10 @@ SmsPost(h, c, e, which) ==
                  THEN LET f == AfterAuthFail(h1, c, u) IN IF f.handled THEN f.h ELSE Page(f.h, page)
                  ELSE CASE which = "confirm" ->
                              IF h.rs.smsNum = 0 THEN Fail(h1)
-                             ELSE LET h2 == [NewRecoveryCodes(h1, u) EXCEPT !.db[u].sms = h.rs.smsNum]
-                                  IN  Page(DelS(DelS(DelS(h2, "tfaAuthed"), "smsCode"), "smsNum"), "smsConfirmOK")
+                             ELSE LET h2 == [EnrolRecoveryCodes(h1, c, u) EXCEPT !.db[u].sms = h.rs.smsNum]
+                                  IN  TfaChanged(DelS(DelS(DelS(h2, "tfaAuthed"), "smsCode"), "smsNum"), c, "smsConfirmOK")
                         [] which = "remove" ->
-                             Page(DelS([h1 EXCEPT !.db[u].sms = 0], "twofa"), "smsRemoveOK")
+                             TfaChanged(DelS([h1 EXCEPT !.db[u].sms = 0], "twofa"), c, "smsRemoveOK")
                         [] OTHER -> TwoFALogin(h1, c, u, "sms", e)
 
 (* recovery codes, e-mail verification *)
@@ -575,7 +583,7 @@ Request(S, c, e) ==
                         !.cookie[e.b] = IF flush THEN hf.pc ELSE @],
        resp |-> [class |-> hf.class, loc |-> hf.loc, ran |-> hf.ran,
                  seenUser |-> hf.seenUser, seenKeys |-> hf.seenKeys,
-                 mails |-> hf.mails, sms |-> hf.sms, shown |-> hf.shown, leaks |-> {}]]
+                 mails |-> hf.mails, sms |-> hf.sms, shown |-> hf.shown, leaks |-> {}, calls |-> <<>>]]
 
 -----------------------------------------------------------------------------
 (* Environment events *)
